@@ -275,6 +275,123 @@ def store (f : Frame α) : Option (List α) :=
 
 end Impl
 
+/-! ## Several frames: a frame and the frames derived from it
+
+`slice` / `head` / `tail` / `query` / `distinct` / `+` / `to_batches` hand out a *new* `DataFrame` built
+with `rows=…` (`dataframe.py:160-173,198-214,265-273,344-356,506-511`).  Every frame has its own cursor;
+whether it also has its own row list is what the source says (`Gen.Cursor.*OwnsRows`, regenerated on
+every run): `rows=self._rows[a:b]` is a copy, `rows=self._rows` is the parent's list itself.  In the
+second case `append` through one frame grows the list the cursor of the other is walking — that frame
+was not appended to, its cursor is not invalidated, and a CPython list iterator that has not yet raised
+`StopIteration` delivers the foreign row.  The model keeps row lists by value and records such pairs in
+`links`; an append is replayed on the linked frames (store only — not `live`).
+
+`Props/C04.lean` proves that with what the source says now no links arise and every frame of a system
+runs its own history, whatever is done to the others (`frames_independent`). -/
+
+/-- The methods that derive a materialised frame. -/
+inductive Deriv where
+  | slice | head | tail | query | distinct | add | batches
+  deriving Repr, DecidableEq
+
+def Deriv.owns : Deriv → Bool
+  | .slice => Gen.Cursor.sliceOwnsRows
+  | .head => Gen.Cursor.headOwnsRows
+  | .tail => Gen.Cursor.tailOwnsRows
+  | .query => Gen.Cursor.queryOwnsRows
+  | .distinct => Gen.Cursor.distinctOwnsRows
+  | .add => Gen.Cursor.addOwnsRows
+  | .batches => Gen.Cursor.batchesOwnsRows
+
+inductive SysOp (α : Type) where
+  /-- an operation on frame `i` -/
+  | on (i : Nat) (op : Op α)
+  /-- frame `i` hands out a materialised frame holding `rows` (which rows a derivation selects is not
+  this property's business: they are a parameter) -/
+  | derive (i : Nat) (how : Deriv) (rows : List α)
+  /-- frame `i` hands out a lazily backed frame (`select` / `filter` / `take`: a generator, one chunk of
+  one or zero rows per parent row) -/
+  | deriveLazy (i : Nat) (tables : List (List α))
+  deriving Repr
+
+structure Sys (α : Type) where
+  frames : List (Frame α)
+  /-- pairs of frames that hold the same list object -/
+  links : List (Nat × Nat)
+  /-- `arraysize` of a new frame (`dataframe.py:93`) -/
+  default : Nat
+  deriving Repr
+
+namespace Sys
+
+def init (d : Nat) (f : Frame α) : Sys α := { frames := [f], links := [], default := d }
+
+/-- The frames that hold the same list as frame `i` (one step; a frame derived from an alias is linked
+to every holder when it is made). -/
+def linked (links : List (Nat × Nat)) (i : Nat) : List Nat :=
+  links.filterMap (fun (a, b) => if a = i then some b else if b = i then some a else none)
+
+/-- `self._rows.append(row)` seen from another holder of the list: the store grows, nothing else. -/
+def grow (r : α) (f : Frame α) : Frame α :=
+  match f.backing with
+  | .eager rows p => { f with backing := .eager (rows ++ [r]) p }
+  | .lazy _ => f
+
+def growAll (r : α) (js : List Nat) (frames : List (Frame α)) : List (Frame α) :=
+  js.foldl (fun fs j => match fs[j]? with | some f => fs.set j (grow r f) | none => fs) frames
+
+def step (s : Sys α) : SysOp α → Sys α × Out α
+  | .on i op =>
+    match s.frames[i]? with
+    | none => (s, .outside)
+    | some f =>
+      let (f', o) := Impl.step f op
+      let frames := s.frames.set i f'
+      match op, f.backing with
+      | .append r, .eager _ _ => ({ s with frames := growAll r (linked s.links i) frames }, o)
+      | _, _ => ({ s with frames := frames }, o)
+  | .derive i how rows =>
+    match s.frames[i]? with
+    | none => (s, .outside)
+    | some f =>
+      match f.backing with
+      | .lazy _ => (s, .outside)   -- a derivation reads the rows: outside the lazy clause
+      | .eager prows _ =>
+        if how.owns then
+          ({ s with frames := s.frames ++ [Impl.initEager s.default rows false f.schemaRel] }, .unit)
+        else
+          let n := s.frames.length
+          ({ s with frames := s.frames ++ [Impl.initEager s.default prows false f.schemaRel],
+                    links := s.links ++ (i :: linked s.links i).map (fun j => (n, j)) }, .unit)
+  | .deriveLazy i tables =>
+    match s.frames[i]? with
+    | none => (s, .outside)
+    | some f =>
+      match f.backing with
+      | .lazy _ => (s, .outside)
+      | .eager _ _ => ({ s with frames := s.frames ++ [Impl.initLazy s.default tables none false] }, .unit)
+
+def run (s : Sys α) : List (SysOp α) → Sys α × List (Out α)
+  | [] => (s, [])
+  | op :: ops =>
+    let (s1, o) := step s op
+    let (s2, os) := run s1 ops
+    (s2, o :: os)
+
+/-- The history of frame `i` inside a history of the system. -/
+def proj (i : Nat) : List (SysOp α) → List (Op α)
+  | [] => []
+  | .on j op :: ops => if j = i then op :: proj i ops else proj i ops
+  | _ :: ops => proj i ops
+
+/-- What the operations on frame `i` returned, oldest first. -/
+def trace (i : Nat) : List (SysOp α) → List (Out α) → List (Out α)
+  | .on j _ :: ops, o :: os => if j = i then o :: trace i ops os else trace i ops os
+  | _ :: ops, _ :: os => trace i ops os
+  | _, _ => []
+
+end Sys
+
 /-- The operations of the property's lazy clause: the frame is read only through the cursor
 (schema-level observers do not read rows). -/
 def LazyOk : Op α → Bool
@@ -286,5 +403,23 @@ def chunkRows (tables : List (List α)) (maxSize : Option Nat) : List α :=
   match maxSize with
   | none => tables.flatten
   | some m => tables.flatten.take m
+
+/-! ### the lazy views of a materialised frame (`select` / `filter` / `take`, `dataframe.py:175-189,275-288`)
+as chunk sources: one chunk of one or zero rows per parent row.  This is the shape the harness hands the
+model (`layout()` in harness/props/c04.py) and the shape the lazy clause is proved for;
+`C04.generated_views_are_chunk_sources` proves that the generators in the source produce exactly these
+rows. -/
+
+/-- `filter(mask)`: `zip` stops at the shorter of rows and mask. -/
+def filterChunks (rows : List α) (mask : List Bool) : List (List α) :=
+  (rows.zip mask).map (fun (t, m) => if m then [t] else [])
+
+/-- `take(indexes)`: the rows whose position is among the indexes, in frame order. -/
+def takeChunks (rows : List α) (indexes : List Nat) : List (List α) :=
+  rows.zipIdx.map (fun (m, i) => if i ∈ indexes then [m] else [])
+
+/-- `select(columns)`: every parent row gives one row, the values at the chosen positions. -/
+def selectChunks {β : Type} (get : α → Nat → β) (rows : List α) (cols : List Nat) : List (List (List β)) :=
+  rows.map (fun tup => [cols.map (get tup)])
 
 end Cursor
